@@ -12,6 +12,7 @@ against the tie (harness + driver streams), to find what the machinery does not 
   mutsweep.py report                   kill matrix, survivors
 
 Scratch copies live under /tmp/mutw/<worker> and are removed at the end of `run`.
+The results of the sweep described in DESIGN.md 17.1 are kept in mutsweep/RESULTS.jsonl (one line per mutant).
 A mutant is *caught* when some stream yields a failure line ("F …") the unmutated tree does not yield, or
 the harness/driver dies or times out.  Survivors that also pass the 88 tests are the interesting ones:
 either equivalent mutants (no observable change through the public API) or gaps in the tie.
